@@ -242,3 +242,49 @@ pub fn to_set(ds: &[D]) -> HashSet<Digest> { ds.iter().map(|d| Digest::from_data
 
 /// sort digests the way the path condition (else the bytes) orders them
 pub fn sort_digests(v: &mut Vec<D>) { insertion_sort(v, |a, b| rt::before(a, b)); }
+
+// ---------------------------------------------------------------------------------------
+// conformance of a library envelope to a spec tree (kind, digest and order at every position)
+
+use crate::spec::{spec_digest, Spec};
+
+pub fn spec_kind(s: &Spec) -> Kind {
+    match s {
+        Spec::Leaf(_) => Kind::Leaf, Spec::Kv(_) => Kind::Known, Spec::Wrap(_) => Kind::Wrapped, Spec::Assert(..) => Kind::Assertion,
+        Spec::Node(..) => Kind::Node, Spec::Elided(_) => Kind::Elided, Spec::Encrypted(_) => Kind::Encrypted, Spec::Compressed(_) => Kind::Compressed,
+    }
+}
+
+/// Every position of `e` has the case the spec says and the digest the specification defines
+/// for it; node assertions are exactly the spec's (as a set of digests), strictly ascending.
+pub fn conforms(e: &Envelope, s: &Spec) -> Result<(), String> {
+    fn rec(e: &Envelope, s: &Spec, path: &mut Vec<usize>) -> Result<(), String> {
+        let want = spec_digest(s);
+        if kind(e) != spec_kind(s) { return Err(format!("at {:?}: case {:?}, specification says {:?}", path, kind(e), spec_kind(s))); }
+        if dg(e) != want { return Err(format!("at {:?} ({:?}): digest() = {}.., specification gives {}..", path, kind(e), hex::encode(&dg(e)[..4]), hex::encode(&want[..4]))); }
+        match (e.case(), s) {
+            (EnvelopeCase::Wrapped { envelope, .. }, Spec::Wrap(x)) => { path.push(0); rec(envelope, x, path)?; path.pop(); }
+            (EnvelopeCase::Assertion(a), Spec::Assert(p, o)) => {
+                path.push(0); rec(&a.predicate(), p, path)?; path.pop();
+                path.push(1); rec(&a.object(), o, path)?; path.pop();
+            }
+            (EnvelopeCase::Node { subject, assertions, .. }, Spec::Node(sub, sa)) => {
+                path.push(0); rec(subject, sub, path)?; path.pop();
+                let mut want: Vec<(D, &Spec)> = vec![];
+                for x in sa { let d = spec_digest(x); if !want.iter().any(|w| w.0 == d) { want.push((d, x)); } }
+                if want.len() != assertions.len() { return Err(format!("at {:?}: {} assertion elements, specification says {}", path, assertions.len(), want.len())); }
+                for w in assertions.windows(2) {
+                    if dg(&w[0]) == dg(&w[1]) { return Err(format!("at {:?}: repeated assertion digest", path)); }
+                    if !rt::before(&dg(&w[0]), &dg(&w[1])) { return Err(format!("at {:?}: assertions not in ascending digest order", path)); }
+                }
+                for (i, a) in assertions.iter().enumerate() {
+                    let Some((_, sx)) = want.iter().find(|w| w.0 == dg(a)) else { return Err(format!("at {:?}: assertion element {} has a digest the specification does not give to any assertion", path, i)); };
+                    path.push(i + 1); rec(a, sx, path)?; path.pop();
+                }
+            }
+            _ => {}
+        }
+        Ok(())
+    }
+    rec(e, s, &mut vec![])
+}
